@@ -1,4 +1,6 @@
 import GridVerif.Props.C19
+import GridVerif.Props.C19.State
+import GridVerif.Props.C19.BReject
 
 #print axioms GridVerif.C19.safe_init
 #print axioms GridVerif.C19.step_safe
@@ -10,3 +12,29 @@ import GridVerif.Props.C19
 #print axioms GridVerif.C19.b_results_order_independent
 #print axioms GridVerif.C19.b_first_call_fixes
 #print axioms GridVerif.C19.b_only_set_by_setter_and_loader_fresh
+#print axioms GridVerif.C19.module_objects_disciplined
+#print axioms GridVerif.C19.registered_caches_present
+#print axioms GridVerif.C19.module_object_names_unique
+#print axioms GridVerif.C19.no_other_process_state
+#print axioms GridVerif.C19.cache_protocol_as_modelled
+#print axioms GridVerif.C19.gstep_frame
+#print axioms GridVerif.C19.grun_frame
+#print axioms GridVerif.C19.module_tables_never_change
+#print axioms GridVerif.C19.late_attrs_registered
+#print axioms GridVerif.C19.memos_registered
+#print axioms GridVerif.C19.kdtree_cfg_safe
+#print axioms GridVerif.C19.mstep_inv
+#print axioms GridVerif.C19.memo_queries_current
+#print axioms GridVerif.C19.kdtree_always_current
+#print axioms GridVerif.C19.memo_stale_without_reset
+#print axioms GridVerif.C19.basis_cfg_as_is
+#print axioms GridVerif.C19.basis_memo_corruptible_at
+#print axioms GridVerif.C19.basis_current_without_edits
+#print axioms GridVerif.C19.memo_stale_after_inplace_edit_at
+#print axioms GridVerif.C19.setMaxBChecked_state
+#print axioms GridVerif.C19.b_fixed_never_rejects
+#print axioms GridVerif.C19.b_first_call_rejects_iff
+#print axioms GridVerif.C19.b_rejected_call_leaves_no_trace
+#print axioms GridVerif.C19.b_history_ignores_rejected_calls
+#print axioms GridVerif.C19.b_history_after_rejection_at
+#print axioms GridVerif.C19.b_partial_no_rejection
